@@ -16,31 +16,93 @@ def pairs_of(raw):
     return sorted(zip(arr[0], arr[1])) if arr and len(arr) == 2 and arr[0] else []
 
 
-def f15_class(c, rg, ra):
-    """known finding F15: the geometric strategy reports exactly the certified crossings, the algebraic one returns a subset of
-    them, and EVERY crossing it misses has an axis-parallel tangent on one of the two curves (exact derivatives)"""
+F15_SIG = ("F15 the algebraic strategy drops a simple crossing at which the tangent of one of the curves is parallel to a "
+           "coordinate axis (x'(s) = 0 or y'(s) = 0 there): its locate_point solves ONE coordinate polynomial, which then has a "
+           "double root, and a root at 1 + 2^-52 of the intersection polynomial moves it out of the unit interval")
+F18_SIG = ("F18 the algebraic strategy drops a simple crossing when the intersection polynomial is ill conditioned (leading power-basis "
+           "coefficient below 2^-6 of the largest one: the higher-degree curve is nearly degree-reducible): the root is found to ~1e-12 "
+           "and algebraic locate_point rejects the point on its fixed 2^-38 residual threshold")
+
+
+def alg_known_class(c, rg, ra):
+    """known findings F15 / F18: the geometric strategy reports exactly the certified crossings, the algebraic one returns a subset,
+    and every crossing it misses is in one of the two classes (decided from the exact data of the case)"""
     if "exc" in rg or "exc" in ra:
-        return False
+        return None
     exp = sorted(c["expected"])
     pg, pa = pairs_of(rg), pairs_of(ra)
     close = lambda x, y: abs(x[0] - y[0]) <= TOL and abs(x[1] - y[1]) <= TOL
     if len(pg) != len(exp) or not all(close(x, y) for x, y in zip(pg, exp)):
-        return False
+        return None
     if not all(any(close(p, e) for e in exp) for p in pa) or len(pa) >= len(exp):
-        return False
+        return None
     def deriv(rows, s):
         n = len(rows[0]) - 1
         return [n * io.oq.bernstein([r[i + 1] - r[i] for i in range(n)], s) for r in rows]
+    sigs = set()
+    # conditioning of the intersection polynomial (exact resultant in the parameter of the curve with more nodes, as the code builds it)
+    b1, b2 = c.get("base1", c["c1"]), c.get("base2", c["c2"])       # the algebraic path reduces elevated presentations first
+    lo, hi = (b1, b2) if len(b1[0]) <= len(b2[0]) else (b2, b1)
+    try:
+        g = io._resultant_poly(lo, hi) if len(lo[0]) > 2 else None
+        if g is None:
+            # first curve is a line: the polynomial is the implicit line equation composed with the other curve
+            (px, qx), (py, qy) = lo
+            a_, b_ = qy - py, -(qx - px)
+            g = io.ptrim([a_ * u + b_ * v for u, v in zip(io.oq.to_power(hi[0]), io.oq.to_power(hi[1]))])
+    except Exception:
+        g = None
+    ill = bool(g) and len(g) >= 2 and abs(g[-1]) * 64 <= max(abs(x) for x in g)
     for e in exp:
         if any(close(p, e) for p in pa):
             continue
-        d1, d2 = deriv(c["c1"], e[0]), deriv(c["c2"], e[1])
-        # the certified parameters are exact at end points and accurate to 2^-40 elsewhere: exact zero test at end points only
-        if not (e[0] in (0, 1) or e[1] in (0, 1)):
+        d1, d2 = deriv(b1, e[0]), deriv(b2, e[1])
+        big = max(abs(x) for x in d1 + d2) or F(1)
+        if min(abs(x) for x in d1 + d2) * 2 ** 20 <= big:
+            sigs.add(F15_SIG)
+        elif ill:
+            sigs.add(F18_SIG)
+        else:
+            return None
+    return sorted(sigs)
+
+
+def tri_edges(t):
+    n = len(t[0])
+    idx = {3: [(0, 1), (1, 2), (2, 0)], 6: [(0, 1, 2), (2, 4, 5), (5, 3, 0)]}[n]
+    return [[[t[0][i] for i in e], [t[1][i] for i in e]] for e in idx]
+
+
+def tri_known(ctx, cfg, c):
+    """a disagreement of the two strategies on a triangle pair is attributed to known findings F15 / F18 when some pair of edges is a
+    certified curve pair on which the algebraic strategy drops crossings of those classes, and no edge pair disagrees otherwise"""
+    from common import run_impl
+    pairs = [(e1, e2) for e1 in tri_edges(c["t1"]) for e2 in tri_edges(c["t2"])]
+    cases = []
+    for e1, e2 in pairs:
+        exp = io.curve_curve(e1, e2)
+        if exp is None:
+            continue
+        cases.append({"c1": e1, "c2": e2, "expected": exp})
+    if not cases:
+        return False
+    g = run_impl(cfg, [{"op": "Curve.intersect", "args": [enc_arr(k["c1"]), enc_arr(k["c2"]), "GEOMETRIC"]} for k in cases])
+    a = run_impl(cfg, [{"op": "Curve.intersect", "args": [enc_arr(k["c1"]), enc_arr(k["c2"]), "ALGEBRAIC"]} for k in cases])
+    hit = False
+    for k, rg, ra in zip(cases, g, a):
+        if "exc" in rg or "exc" in ra:
+            continue
+        pg, pa = pairs_of(rg), pairs_of(ra)
+        if len(pg) == len(pa) and all(abs(x[0] - y[0]) <= TOL and abs(x[1] - y[1]) <= TOL for x, y in zip(pg, pa)):
+            continue
+        sigs = alg_known_class(k, rg, ra)
+        if not sigs:
             return False
-        if not (d1[0] == 0 or d1[1] == 0 or d2[0] == 0 or d2[1] == 0):
-            return False
-    return True
+        hit = True
+        for sig in sigs:
+            if sig not in ctx.known_hits:
+                ctx.known_hits.append(sig)
+    return hit
 
 
 def run(ctx):
@@ -51,6 +113,9 @@ def run(ctx):
     # pinned instance of known finding F15 (an end-point crossing with a vertical tangent)
     cases.insert(0, {"c1": [[F(0), F(0), F(3)], [F(-1), F(3, 2), F(1, 2)]], "c2": [[F(-1), F(-1, 2), F(0)], [F(3, 2), F(-1, 2), F(-1)]],
                      "expected": [(F(0), F(1))], "kind": "curve-curve:pinned-F15"})
+    f18 = {"c1": [[F(0), F(8)], [F(0), F(-1, 2)]], "c2": [[F(5), F(145, 32), F(4)], [F(7, 2), F(1), F(-3, 2)]], "kind": "line-curve:pinned-F18"}
+    f18["expected"] = list(io.line_curve(f18["c1"], f18["c2"]))
+    cases.insert(1, f18)
     # degree-elevated presentations (the algebraic path must reduce first): every presented size up to 5 nodes for either
     # curve; the elevated net is rounded to binary64 (moves a simple crossing by rounding amounts only)
     extra = []
@@ -62,7 +127,8 @@ def run(ctx):
             if k1 + k2 == 0:
                 continue
             rnd = lambda rows: [[F(float(x)) for x in r] for r in rows]
-            extra.append(dict(c, c1=rnd(io.elevate_rows(c["c1"], k1)), c2=rnd(io.elevate_rows(c["c2"], k2)), kind="elevated %d+%d" % (k1, k2)))
+            extra.append(dict(c, c1=rnd(io.elevate_rows(c["c1"], k1)), c2=rnd(io.elevate_rows(c["c2"], k2)), kind="elevated %d+%d" % (k1, k2),
+                              base1=c["c1"], base2=c["c2"]))
     cases = [c for c in cases + extra if all(F(float(x)) == x for r in c["c1"] + c["c2"] for x in r)]
     # run both strategies and compare the sets (support sweep)
     from common import run_impl_parallel
@@ -82,13 +148,12 @@ def run(ctx):
                     v = "strategies disagree: geometric %s, algebraic %s" % ([tuple(map(float, p)) for p in pg], [tuple(map(float, p)) for p in pa])
                 elif len(pa) != len(c["expected"]):
                     v = "both strategies report %d crossings, %d certified" % (len(pa), len(c["expected"]))
-            if v and f15_class(c, rg, ra):
+            sigs = alg_known_class(c, rg, ra) if v else None
+            if sigs:
                 stats["known"] = stats.get("known", 0) + 1
-                sig = ("F15 the algebraic strategy drops a simple crossing at which the tangent of one of the curves is parallel to a "
-                       "coordinate axis (x'(s) = 0 or y'(s) = 0 there): its locate_point solves ONE coordinate polynomial, which then has a "
-                       "double root, and a root at 1 + 2^-52 of the intersection polynomial moves it out of the unit interval")
-                if sig not in ctx.known_hits:
-                    ctx.known_hits.append(sig)
+                for sig in sigs:
+                    if sig not in ctx.known_hits:
+                        ctx.known_hits.append(sig)
                 continue
             if v:
                 stats["failures"] += 1
@@ -166,6 +231,9 @@ def run(ctx):
             if sa and sa[0] == "exc" and sa[1] == "NotImplementedError":
                 continue            # the algebraic strategy may refuse (documented)
             nested_wrong = c["kind"] == "nested" and sg and sg[0] != "exc" and len(sg) != 1
+            if (not same or nested_wrong) and tri_known(ctx, cfg, c):
+                tstats["known"] = tstats.get("known", 0) + 1
+                continue
             if not same or nested_wrong:
                 tstats["failures"] += 1
                 if tstats["failures"] <= 3:
